@@ -78,4 +78,18 @@ theorem gcmDecrypt_guards_ok : gcmDecrypt_guards = (["err != nil", "len(cipherte
 
 theorem cfbDecrypt_guards_ok : cfbDecrypt_guards = (["len(ciphertext) < aes.BlockSize"] : List String) := rfl
 
+theorem skel_readynessCheck_ok : skel_readynessCheck = ([
+  "return http.HandlerFunc(func(rw http.ResponseWriter, req *http.Requ",
+  "func{",
+  "if path != \"\" && req.URL.EscapedPath() == path",
+  "if err != nil",
+  "verifiable.VerifyConnection",
+  "rw.WriteHeader",
+  "fmt.Fprintf",
+  "return",
+  "rw.WriteHeader",
+  "fmt.Fprintf",
+  "return",
+  "next.ServeHTTP"] : List String) := rfl
+
 end O2P.Expect.C13
